@@ -1,7 +1,7 @@
 (* C14 proofs, part 2: uniq.  Generic in the element type; instantiated for Z and Q at the end. *)
-From Coq Require Import ZArith QArith List Bool Lia Lqa Sorted.
+From Coq Require Import ZArith QArith List Bool Lia Lqa Sorted ZifyBool.
 Import ListNotations.
-From PV Require Import C14.Model.
+From PV Require Import Generated.Uniq C14.Model.
 Open Scope Z_scope.
 
 Section UniqProofs.
@@ -18,9 +18,25 @@ Section UniqProofs.
 
   Notation runs_last_from := (runs_last_from A neqb).
   Notation runs_last := (runs_last A neqb).
-  Notation change_points := (change_points A neqb).
-  Notation uniq := (uniq A neqb).
-  Notation uniq_indexed := (uniq_indexed A neqb dflt).
+
+  (* the reference form the proofs work with: roll(x,-1) as "tail ++ [head]", [] / non-[] match;
+     bridged to the GENERATED-parameter model (uniq0, uniq_indexed0) after the section *)
+  Definition roll_m1 (l : list A) : list A := match l with [] => [] | x :: t => t ++ [x] end.
+  Definition change_points (x : list A) : list Z :=
+    nonzero_from 0 (map (fun p => neqb (fst p) (snd p)) (combine x (roll_m1 x))).
+  Definition uniq0 (x : list A) : list Z :=
+    match change_points x with
+    | [] => [lenZ x - 1]
+    | ind => ind
+    end.
+  Definition uniq_indexed0 (x : list A) (index : list Z) : list Z :=
+    let q := take A dflt x index in
+    match change_points q with
+    | [] => [lenZ q - 1]
+    | ind => map (getZ index) ind
+    end.
+  Notation uniq := uniq0.
+  Notation uniq_indexed := uniq_indexed0.
 
   (* change points strictly inside the array: j < n-1 with x[j] != x[j+1] *)
   Fixpoint inner_from (i : Z) (l : list A) : list Z :=
@@ -145,7 +161,7 @@ Section UniqProofs.
   (* uniq_spec: for a sorted, non-empty array uniq returns the last subscript of every run *)
   Theorem uniq_spec l : l <> [] -> is_sortedb leb l = true -> uniq l = runs_last l.
   Proof.
-    destruct l as [|a t]; [congruence|]. intros _ S. unfold Model.uniq, Model.runs_last.
+    destruct l as [|a t]; [congruence|]. intros _ S. unfold uniq0, Model.runs_last.
     rewrite change_points_cp, cp_inner, runs_last_inner by congruence.
     destruct (neqb (last (a :: t) a) a) eqn:E.
     - apply match_app_single.
@@ -157,7 +173,7 @@ Section UniqProofs.
      (the only comparison roll() adds is last-vs-first) *)
   Theorem uniq_runs_last_when_ends_differ a t : neqb (last (a :: t) a) a = true -> uniq (a :: t) = runs_last (a :: t).
   Proof.
-    intros E. unfold Model.uniq, Model.runs_last.
+    intros E. unfold uniq0, Model.runs_last.
     rewrite change_points_cp, cp_inner, runs_last_inner by congruence. rewrite E.
     apply match_app_single.
   Qed.
@@ -166,7 +182,7 @@ Section UniqProofs.
   Theorem uniq_constant l : l <> [] -> all_same neqb l = true -> uniq l = [lenZ l - 1].
   Proof.
     destruct l as [|a t]; [congruence|]. intros _ C. rewrite all_same_iff in C.
-    unfold Model.uniq. rewrite change_points_cp, cp_inner by congruence.
+    unfold uniq0. rewrite change_points_cp, cp_inner by congruence.
     rewrite (inner_squeezed a) by exact C.
     assert (E : neqb (last (a :: t) a) a = false).
     { rewrite neqb_sym. apply C. apply last_In. congruence. }
@@ -195,7 +211,7 @@ Section UniqProofs.
     index <> [] -> is_sortedb leb (take A dflt x index) = true ->
     uniq_indexed x index = uniq_indexed_spec neqb dflt x index.
   Proof.
-    intros Hne S. unfold Model.uniq_indexed, uniq_indexed_spec.
+    intros Hne S. unfold uniq_indexed0, uniq_indexed_spec.
     set (q := take A dflt x index) in *.
     assert (Hq : q <> []) by (subst q; unfold take; destruct index; [congruence|discriminate]).
     destruct (change_points_sorted q Hq S) as [[C E]|[C [E N]]]; rewrite C, E.
@@ -213,10 +229,10 @@ Section UniqProofs.
   Theorem uniq_indexed_constant x index :
     index <> [] -> all_same neqb (take A dflt x index) = true -> uniq_indexed x index = [lenZ index - 1].
   Proof.
-    intros Hne C. unfold Model.uniq_indexed. set (q := take A dflt x index) in *.
+    intros Hne C. unfold uniq_indexed0. set (q := take A dflt x index) in *.
     assert (Hq : q <> []) by (subst q; unfold take; destruct index; [congruence|discriminate]).
     assert (L : lenZ q = lenZ index) by (subst q; unfold take, lenZ; rewrite map_length; reflexivity).
-    pose proof (uniq_constant q Hq C) as U. unfold Model.uniq in U.
+    pose proof (uniq_constant q Hq C) as U. unfold uniq0 in U.
     destruct (change_points q) eqn:E.
     - rewrite L. reflexivity.
     - (* change_points non-empty: then uniq q = change_points q = [n-1], impossible only if it is that list;
@@ -273,6 +289,46 @@ Section UniqProofs.
   Qed.
 End UniqProofs.
 
+(* ------------------------------------------------------------------ bridge to the GENERATED-parameter model *)
+
+Lemma roll_m1_eq {A} (l : list A) : roll (-1) l = roll_m1 A l.
+Proof.
+  unfold roll. destruct l as [|a t]; [reflexivity|].
+  replace (lenZ (a :: t) =? 0) with false by (unfold lenZ; cbn [length]; lia).
+  destruct t as [|b t'].
+  - reflexivity.
+  - replace (Z.to_nat ((- -1) mod lenZ (a :: b :: t'))) with 1%nat; [reflexivity|].
+    unfold lenZ. cbn [length]. rewrite Z.mod_small; lia.
+Qed.
+
+Theorem uniq_bridge A neqb x : Model.uniq A neqb x = uniq0 A neqb x.
+Proof.
+  unfold Model.uniq, uniq0, change_points_at, change_points, uniq_plain_shift, uniq_plain_nonempty,
+    uniq_plain_pick, uniq_plain_constant.
+  rewrite roll_m1_eq. cbv zeta.
+  destruct (nonzero_from 0 (map (fun p => neqb (fst p) (snd p)) (combine x (roll_m1 A x)))) as [|z r].
+  - reflexivity.
+  - replace (lenZ (z :: r) >? 0) with true by (unfold lenZ; cbn [length]; lia). apply map_id.
+Qed.
+
+Theorem uniq_indexed_bridge A neqb dflt x index :
+  Model.uniq_indexed A neqb dflt x index = uniq_indexed0 A neqb dflt x index.
+Proof.
+  unfold Model.uniq_indexed, uniq_indexed0, change_points_at, change_points, uniq_indexed_shift,
+    uniq_indexed_nonempty, uniq_indexed_pick, Generated.Uniq.uniq_indexed_constant.
+  rewrite roll_m1_eq. cbv zeta.
+  destruct (nonzero_from 0 (map (fun p => neqb (fst p) (snd p))
+              (combine (take A dflt x index) (roll_m1 A (take A dflt x index))))) as [|z r].
+  - reflexivity.
+  - replace (lenZ (z :: r) >? 0) with true by (unfold lenZ; cbn [length]; lia). reflexivity.
+Qed.
+
+(* the GENERATED comparison is the dtype's disequality (fails if uniq.py no longer compares with !=) *)
+Lemma gneqbZ_is_ne : gneqbZ_plain = neqbZ /\ gneqbZ_indexed = neqbZ.
+Proof. split; reflexivity. Qed.
+Lemma gneqbQ_is_ne : gneqbQ_plain = neqbQ /\ gneqbQ_indexed = neqbQ.
+Proof. split; reflexivity. Qed.
+
 (* ------------------------------------------------------------------ instances *)
 
 Lemma neqbZ_false a b : neqbZ a b = false <-> a = b.
@@ -317,33 +373,33 @@ Lemma Qh_antisym : forall a b, Qle_bool a b = true -> Qle_bool b a = true -> neq
 Lemma Qh_eqle : forall a b, neqbQ a b = false -> Qle_bool a b = true. Proof. qhyps. Qed.
 
 (* integer arrays *)
-Lemma uniqZ_spec l : l <> [] -> is_sortedb Z.leb l = true -> uniq Z neqbZ l = runs_last Z neqbZ l.
-Proof. apply (uniq_spec Z neqbZ Z.leb Zh_refl neqbZ_sym Zh_eqtrans Zh_letrans Zh_antisym Zh_eqle). Qed.
-Lemma uniqZ_constant l : l <> [] -> all_same neqbZ l = true -> uniq Z neqbZ l = [lenZ l - 1].
-Proof. apply (uniq_constant Z neqbZ Zh_refl neqbZ_sym Zh_eqtrans). Qed.
+Lemma uniqZ_spec l : l <> [] -> is_sortedb Z.leb l = true -> Model.uniq Z gneqbZ_plain l = runs_last Z neqbZ l.
+Proof. rewrite uniq_bridge. apply (uniq_spec Z neqbZ Z.leb Zh_refl neqbZ_sym Zh_eqtrans Zh_letrans Zh_antisym Zh_eqle). Qed.
+Lemma uniqZ_constant l : l <> [] -> all_same neqbZ l = true -> Model.uniq Z gneqbZ_plain l = [lenZ l - 1].
+Proof. rewrite uniq_bridge. apply (uniq_constant Z neqbZ Zh_refl neqbZ_sym Zh_eqtrans). Qed.
 Lemma uniqZ_indexed x index : index <> [] -> is_sortedb Z.leb (take Z 0 x index) = true ->
-  uniq_indexed Z neqbZ 0 x index = uniq_indexed_spec neqbZ 0 x index.
-Proof. apply (uniq_indexed_spec_ok Z neqbZ Z.leb 0 Zh_refl neqbZ_sym Zh_eqtrans Zh_letrans Zh_antisym Zh_eqle). Qed.
+  Model.uniq_indexed Z gneqbZ_indexed 0 x index = uniq_indexed_spec neqbZ 0 x index.
+Proof. rewrite uniq_indexed_bridge. apply (uniq_indexed_spec_ok Z neqbZ Z.leb 0 Zh_refl neqbZ_sym Zh_eqtrans Zh_letrans Zh_antisym Zh_eqle). Qed.
 Lemma uniqZ_indexed_nonconstant x index : index <> [] -> is_sortedb Z.leb (take Z 0 x index) = true ->
   all_same neqbZ (take Z 0 x index) = false ->
-  uniq_indexed Z neqbZ 0 x index = map (getZ index) (runs_last Z neqbZ (take Z 0 x index)).
-Proof. apply (uniq_indexed_nonconstant Z neqbZ Z.leb 0 Zh_refl neqbZ_sym Zh_eqtrans Zh_letrans Zh_antisym Zh_eqle). Qed.
+  Model.uniq_indexed Z gneqbZ_indexed 0 x index = map (getZ index) (runs_last Z neqbZ (take Z 0 x index)).
+Proof. rewrite uniq_indexed_bridge. apply (uniq_indexed_nonconstant Z neqbZ Z.leb 0 Zh_refl neqbZ_sym Zh_eqtrans Zh_letrans Zh_antisym Zh_eqle). Qed.
 Lemma uniqZ_indexed_constant x index : index <> [] -> all_same neqbZ (take Z 0 x index) = true ->
-  uniq_indexed Z neqbZ 0 x index = [lenZ index - 1].
-Proof. apply (uniq_indexed_constant Z neqbZ 0 Zh_refl neqbZ_sym Zh_eqtrans). Qed.
+  Model.uniq_indexed Z gneqbZ_indexed 0 x index = [lenZ index - 1].
+Proof. rewrite uniq_indexed_bridge. apply (uniq_indexed_constant Z neqbZ 0 Zh_refl neqbZ_sym Zh_eqtrans). Qed.
 
 (* float arrays *)
-Lemma uniqQ_spec l : l <> [] -> is_sortedb Qle_bool l = true -> uniq Q neqbQ l = runs_last Q neqbQ l.
-Proof. apply (uniq_spec Q neqbQ Qle_bool Qh_refl neqbQ_sym Qh_eqtrans Qh_letrans Qh_antisym Qh_eqle). Qed.
-Lemma uniqQ_constant l : l <> [] -> all_same neqbQ l = true -> uniq Q neqbQ l = [lenZ l - 1].
-Proof. apply (uniq_constant Q neqbQ Qh_refl neqbQ_sym Qh_eqtrans). Qed.
+Lemma uniqQ_spec l : l <> [] -> is_sortedb Qle_bool l = true -> Model.uniq Q gneqbQ_plain l = runs_last Q neqbQ l.
+Proof. rewrite uniq_bridge. apply (uniq_spec Q neqbQ Qle_bool Qh_refl neqbQ_sym Qh_eqtrans Qh_letrans Qh_antisym Qh_eqle). Qed.
+Lemma uniqQ_constant l : l <> [] -> all_same neqbQ l = true -> Model.uniq Q gneqbQ_plain l = [lenZ l - 1].
+Proof. rewrite uniq_bridge. apply (uniq_constant Q neqbQ Qh_refl neqbQ_sym Qh_eqtrans). Qed.
 Lemma uniqQ_indexed x index : index <> [] -> is_sortedb Qle_bool (take Q 0%Q x index) = true ->
-  uniq_indexed Q neqbQ 0%Q x index = uniq_indexed_spec neqbQ 0%Q x index.
-Proof. apply (uniq_indexed_spec_ok Q neqbQ Qle_bool 0%Q Qh_refl neqbQ_sym Qh_eqtrans Qh_letrans Qh_antisym Qh_eqle). Qed.
+  Model.uniq_indexed Q gneqbQ_indexed 0%Q x index = uniq_indexed_spec neqbQ 0%Q x index.
+Proof. rewrite uniq_indexed_bridge. apply (uniq_indexed_spec_ok Q neqbQ Qle_bool 0%Q Qh_refl neqbQ_sym Qh_eqtrans Qh_letrans Qh_antisym Qh_eqle). Qed.
 Lemma uniqQ_indexed_nonconstant x index : index <> [] -> is_sortedb Qle_bool (take Q 0%Q x index) = true ->
   all_same neqbQ (take Q 0%Q x index) = false ->
-  uniq_indexed Q neqbQ 0%Q x index = map (getZ index) (runs_last Q neqbQ (take Q 0%Q x index)).
-Proof. apply (uniq_indexed_nonconstant Q neqbQ Qle_bool 0%Q Qh_refl neqbQ_sym Qh_eqtrans Qh_letrans Qh_antisym Qh_eqle). Qed.
+  Model.uniq_indexed Q gneqbQ_indexed 0%Q x index = map (getZ index) (runs_last Q neqbQ (take Q 0%Q x index)).
+Proof. rewrite uniq_indexed_bridge. apply (uniq_indexed_nonconstant Q neqbQ Qle_bool 0%Q Qh_refl neqbQ_sym Qh_eqtrans Qh_letrans Qh_antisym Qh_eqle). Qed.
 Lemma uniqQ_indexed_constant x index : index <> [] -> all_same neqbQ (take Q 0%Q x index) = true ->
-  uniq_indexed Q neqbQ 0%Q x index = [lenZ index - 1].
-Proof. apply (uniq_indexed_constant Q neqbQ 0%Q Qh_refl neqbQ_sym Qh_eqtrans). Qed.
+  Model.uniq_indexed Q gneqbQ_indexed 0%Q x index = [lenZ index - 1].
+Proof. rewrite uniq_indexed_bridge. apply (uniq_indexed_constant Q neqbQ 0%Q Qh_refl neqbQ_sym Qh_eqtrans). Qed.
